@@ -12,10 +12,12 @@ and reads `goto-instrument --show-symbol-table --json-ui`.  A symbol is REPORTED
 Every reported symbol is then looked up in `--show-goto-functions`: if no instruction outside
 __CPROVER_initialize assigns it (directly, through a member or an index), it is classified
 `never-assigned` (writable only in the sense of the linker section; e.g. a `static const char *p`);
-if some library function takes its address it is `ADDRESS-TAKEN` (may be written through the pointer:
-a `static` scratch array filled by memcpy), if it is assigned directly `WRITTEN`.
+if its address is taken but only ever handed to const-qualified pointers (a const parameter, a
+pointer-to-const variable) it is `address-taken(const only)` - a warning, exit 0; if the address reaches
+a non-const pointer (a `static` scratch array filled by memcpy / scalar_get_b32, `unsigned char *p = arr`)
+it is `ADDRESS-TO-NONCONST`; if it is assigned directly `WRITTEN`.
 
-exit 0: no static-lifetime object of the library is written or address-taken by library code   (fact holds)
+exit 0: no static-lifetime object of the library is written, or reachable through a non-const pointer, by library code
 exit 1: at least one is                                                (mutable global state: C20 violated)
 exit 2: tool failure
 This is a syntactic fact about the goto program, not a proof obligation.  The
@@ -91,7 +93,32 @@ def main():
         g = run(["goto-instrument", "--show-goto-functions", gb]).stdout
         cur = None
         writes = {x["name"]: [] for x in reported}
-        addr = {x["name"]: [] for x in reported}
+        addr = {x["name"]: [] for x in reported}      # functions taking the address
+        escapes = {x["name"]: [] for x in reported}   # ... in a way that may let someone write through it
+
+        def pointee_const(t):
+            """pointer type whose pointee is const-qualified"""
+            return isinstance(t, dict) and t.get("id") == "pointer" and bool(t.get("sub")) and "#constant" in t["sub"][0].get("namedSub", {})
+
+        def param_types(fn):
+            t = st.get(fn, {}).get("type", {})
+            ps = t.get("namedSub", {}).get("parameters", {}).get("sub", []) if t.get("id") == "code" else []
+            return [p_.get("namedSub", {}).get("type", {}) for p_ in ps]
+
+        def split_args(txt):
+            out_, depth, curarg = [], 0, ""
+            for ch in txt:
+                if ch in "([{":
+                    depth += 1
+                elif ch in ")]}":
+                    depth -= 1
+                if ch == "," and depth == 0:
+                    out_.append(curarg); curarg = ""
+                else:
+                    curarg += ch
+            out_.append(curarg)
+            return out_
+
         for line in g.splitlines():
             m = re.match(r"^(\S+) /\* \S+ \*/$", line)
             if m:
@@ -99,32 +126,50 @@ def main():
                 continue
             if cur is None or cur.startswith("__CPROVER"):
                 continue
-            t = line.strip()
+            t = re.sub(r"^\d+: ", "", line.strip())
             for x in reported:
                 n = x["name"]
                 if n not in t:
                     continue
-                if re.match(r"^(\d+: )?ASSIGN " + re.escape(n) + r"(\b|\[|\.)", t) or re.match(r"^(\d+: )?(DECL|DEAD) " + re.escape(n) + r"\b", t):
+                if re.match(r"^ASSIGN " + re.escape(n) + r"(\b|\[|\.)", t):
                     writes[n].append(cur)
-                if "address_of(" + n in t:
-                    addr[n].append(cur)
+                if "address_of(" + n not in t:
+                    continue
+                addr[n].append(cur)
+                # where does the address go?  const parameter / pointer-to-const variable: harmless; anything else: escapes
+                ok = False
+                mc = re.match(r"^CALL (?:(\S+) := )?([A-Za-z_][\w:$]*)\((.*)\)$", t)
+                ma = re.match(r"^ASSIGN ([A-Za-z_][\w:$!@#]*) := ", t)
+                if mc:
+                    pts = param_types(mc.group(2))
+                    args = split_args(mc.group(3))
+                    ok = all(("address_of(" + n not in a_) or (i < len(pts) and pointee_const(pts[i])) for i, a_ in enumerate(args))
+                elif ma:
+                    ok = pointee_const(st.get(ma.group(1), {}).get("type", {}))
+                if not ok:
+                    escapes[n].append(cur)
         bad = 0
         for x in reported:
             x["written_by"] = sorted(set(writes[x["name"]]))
             x["address_taken_in"] = sorted(set(addr[x["name"]]))
-            # an address-taken non-const static can be written through the pointer (memcpy, get_b32, ...): counted as mutable
-            x["class"] = "WRITTEN" if x["written_by"] else ("ADDRESS-TAKEN" if x["address_taken_in"] else "never-assigned")
-            bad += bool(x["written_by"] or x["address_taken_in"])
+            x["address_to_nonconst_in"] = sorted(set(escapes[x["name"]]))
+            # audit 2 #10: only a direct write, or an address handed to a non-const pointer (memcpy destination,
+            # `unsigned char *p = arr`, a non-const parameter) makes the object mutable state; an address that only
+            # ever reaches const-qualified pointers is a warning
+            x["class"] = "WRITTEN" if x["written_by"] else ("ADDRESS-TO-NONCONST" if x["address_to_nonconst_in"] else
+                                                               ("address-taken(const only)" if x["address_taken_in"] else "never-assigned"))
+            bad += bool(x["written_by"] or x["address_to_nonconst_in"])
         out = {"repo": repo, "cfg": a.cfg, "static_lifetime_objects_in_library": statics,
                "non_const": reported, "written": bad, "fact_holds": bad == 0}
         if a.json:
             json.dump(out, open(a.json, "w"), indent=1)
-        print("static_facts: %d static-lifetime objects declared under %s/{src,include}; %d not const-qualified; %d written or address-taken by library code"
+        print("static_facts: %d static-lifetime objects declared under %s/{src,include}; %d not const-qualified; %d written or exposed through a non-const pointer by library code"
               % (statics, repo, len(reported), bad))
         for x in reported:
             print("  %-14s %s  (%s:%s %s)%s%s" % (x["class"], x["name"], x["file"], x["line"], x["type"],
                   "  written by: " + ",".join(x["written_by"]) if x["written_by"] else "",
-                  "  address taken in: " + ",".join(x["address_taken_in"]) if x["address_taken_in"] else ""))
+                  ("  address to non-const in: " + ",".join(x["address_to_nonconst_in"])) if x["address_to_nonconst_in"] else
+                  ("  address taken (const only) in: " + ",".join(x["address_taken_in"]) if x["address_taken_in"] else "")))
         sys.exit(1 if bad else 0)
 
 
